@@ -24,6 +24,8 @@ TWINS = [(f, o) for f, ops in (
     (("PSHU", "PSHS"), ["S,X", "U,PC", "A,B", "X,Y,S", "U"]), (("PULS", "PULU"), ["S,X", "U,PC", "CC,DP"]), (("TFR", "EXG"), ["A,B", "X,Y", "D,X"]),
     (("LDA", "LDX"), ["#5", "$10,X", "[$1234]", "#V", "V", "L", "V+1", "L+1", "-5,Y", "V,PCR", "L,PCR", "#V*2"]),
     (("FCB", "FDB"), ["V*2", "V+1", "L+1", "V", "L", "1,2,3", "V-1", "L-V"]), (("FCB", "FCB"), ["V*2", "L+1", "V"]), (("FDB", "FDB"), ["V*2", "L+1", "L"]),
+    # the same ELEMENT text in list form (elements are parsed one by one - anything remembered per element text shows here)
+    (("FCB", "FDB"), ["V*2,0,1", "1,V+1", "L+1,2", "V,V"]), (("FCB", "FCB"), ["V+1,1", "1,V*2"]), (("FDB", "FDB"), ["1,L+1", "V*2,L", "L-V,V"]),
     (("LDA", "LEAX"), ["V,X", "L,PCR", "[L,PCR]", "V,PCR"]), (("LDA", "LDA"), ["V-1,X", "V+1,Y", "[V*2,U]", "V/2,S", "#V-1", "V+1", "[V+1]", "<V+1", "V-1,PCR"]),
     (("LDX", "LDX"), ["V-1,X", "[V+2,Y]", "#V*3", "V+V"]), (("LEAY", "LEAY"), ["V-1,X", "V*2,U", "L+1,PCR"]), (("JMP", "LBRA"), ["L", "L+1"]), (("STA", "CMPU"), ["V", "L", "$10,X"]), (("LDX", "LDX"), ["#L+V", "#V*V", "L"]))
     for o in ops]
